@@ -255,3 +255,24 @@ Definition rfc_encode (f : frame) : list byte :=
 (* a frame a client may send and the endpoint must receive *)
 Definition client_frame (f : frame) : Prop :=
   wf_frame f /\ f_mask f = 1 /\ (f_opcode f = OpText -> utf8_valid (f_payload f) = true).
+
+(* the stream a client sends: the RFC encodings of its frames, back to back *)
+Definition enc_stream (fs : list frame) : list byte := concat (map rfc_encode fs).
+(* what the endpoint callback sees for a frame: callback(ws, opcode, payload) *)
+Definition delivery (f : frame) : opcode * list byte := (f_opcode f, f_payload f).
+Definition is_close (f : frame) : bool := opcode_eqb (f_opcode f) OpClose.
+
+(* bytes that are the beginning of a frame whose end has not arrived yet (or nothing at all) *)
+Definition partial_frame (t : list byte) : Prop :=
+  t = [] \/ exists g q, wf_frame g /\ q <> [] /\ rfc_encode g = t ++ q.
+
+(* wf_frame without the convention "an unmasked frame carries the all-zero default key" *)
+Definition wf_frame_anykey (f : frame) : Prop :=
+  bit (f_fin f) /\ bit (f_rsv1 f) /\ bit (f_rsv2 f) /\ bit (f_rsv3 f) /\ bit (f_mask f) /\
+  wire_opcode (f_opcode f) /\ length (f_key f) = 4%nat /\
+  f_plen f = len (f_payload f) /\ f_plen f < 2 ^ 63.
+(* the key is not on the wire when the mask bit is clear: the parser reports the default key *)
+Definition canon_key (f : frame) : frame :=
+  {| f_fin := f_fin f; f_rsv1 := f_rsv1 f; f_rsv2 := f_rsv2 f; f_rsv3 := f_rsv3 f; f_opcode := f_opcode f;
+     f_mask := f_mask f; f_key := if f_mask f =? 0 then zero_key else f_key f; f_plen := f_plen f;
+     f_payload := f_payload f |}.
